@@ -101,7 +101,9 @@ def run_path(c):
     err = None
     with stochlog.Recorder() as rec, pg.quiet() as out:
         try:
-            st, jumps, times = m.solve_stochast(c["T"], 1, exact=c["exact"], full_output=True)
+            # the flag in the forms callers pass it in: a bool, the result of a numpy comparison, 1 / 0
+            flag = [bool, np.bool_, int][int(c["seed"]) % 3](c["exact"])
+            st, jumps, times = m.solve_stochast(c["T"], 1, exact=flag, full_output=True)
         except stochlog.Truncated:
             return dict(truncated=True, calls=[], printed="")
         except BaseException as e:
